@@ -141,7 +141,7 @@ Theorem C11_unset_idempotent_list_partial : forall d q pairs up fs now d1 ch1,
 Proof. exact (apply_unset_idempotent_list _). Qed.
 Print Assumptions C11_unset_idempotent_list_partial.
 
-(* the static conflict check (repo_fixes/c11_static_conflict.diff): acceptance
+(* the static conflict check (lungo b41b8b8): acceptance
    of an update does not depend on the document as far as PATH conflicts go —
    a conflicting update is rejected for every document *)
 Theorem C11_conflicting_update_rejected : forall u p,
